@@ -19,9 +19,9 @@ for m in $OUT/m[0-9]; do
   filt() { grep -v "^warning\|^ *Compiling\|^ *Finished\|^ *Running\|^ *Blocking\|^ *|\|^ *= \|^ *--> \|^$"; }
   if [ -f $m/demo.sh ]; then
     # host-side demo: the sub-agent's demo.sh, run from the worktree root on the mutated tree, then on the original
-    (cd $WT && timeout 1500 sh $m/demo.sh 2>&1 | filt > /tmp/seed/demo$R-$ID-$k.mut)
+    (cd $WT && timeout 1500 bash $m/demo.sh 2>&1 | filt > /tmp/seed/demo$R-$ID-$k.mut)
     git checkout -q -- . ; git clean -fdq -e target
-    (cd $WT && timeout 1500 sh $m/demo.sh 2>&1 | filt > /tmp/seed/demo$R-$ID-$k.orig)
+    (cd $WT && timeout 1500 bash $m/demo.sh 2>&1 | filt > /tmp/seed/demo$R-$ID-$k.orig)
     if cmp -s /tmp/seed/demo$R-$ID-$k.orig /tmp/seed/demo$R-$ID-$k.mut; then echo "demo: SAME output on original and mutated build (demo.sh)" >> $RES; else echo "demo: differs (demo.sh; orig vs mutated):" >> $RES; diff /tmp/seed/demo$R-$ID-$k.orig /tmp/seed/demo$R-$ID-$k.mut | head -12 >> $RES; fi
   elif [ -f $m/demo.koto ]; then
     (cd $m && timeout 20 /tmp/seed/koto-orig$R-$ID demo.koto > /tmp/seed/demo$R-$ID-$k.orig 2>&1; timeout 20 $WT/target/debug/koto demo.koto > /tmp/seed/demo$R-$ID-$k.mut 2>&1)
